@@ -512,7 +512,7 @@ func histRun(r *core.Run, clauses map[string]bool, scs []*hist.Scenario, alpha f
 func checkC05(r *core.Run) {
 	depth := 3
 	if r.Thorough() {
-		depth = 5
+		depth = 4
 	}
 	var scs []*hist.Scenario
 	for _, k := range failKinds {
